@@ -103,7 +103,10 @@ def train_run(args):
     hist, fill = spec["hist"], spec["fill"]
     n_ep = len(hist) + spec["extra"]
     per_epoch = list(hist) + [fill] * (spec["extra"] + 2)
-    table = [per_epoch[min(s // nb, len(per_epoch) - 1)] for s in range(nb * (n_ep + 3))]
+    # the step losses VARY inside an epoch (first batch + (nb-1), the others -1) and average to the scripted epoch value, so
+    # that an epoch loss built from the last / first step, or a wrongly weighted mean, differs from the script
+    off = lambda j: (nb - 1) if j == 0 else -1
+    table = [per_epoch[min(s // nb, len(per_epoch) - 1)] + (off(s % nb) if nb > 1 else 0) for s in range(nb * (n_ep + 3))]
     # the validation loss is read after the epoch's steps: model version e*nb -> table index e*nb
     vtab_epoch = list(spec["vhist"]) + [spec["vfill"]] * (spec["extra"] + 2)
     vtable = [vtab_epoch[min(max(s // nb - 1, 0), len(vtab_epoch) - 1)] for s in range(nb * (n_ep + 3))]
